@@ -63,8 +63,10 @@ def analyse(prop, spec, ops, model, impl, crashes):
         m = vlib.parse_answer(model[i])
         if i in crash_idx:
             if "crash" in spec["impl"]:
-                real.append(dict(meta=meta, kind="crash", op=line, detail="executor died with status %s" % crash_idx[i],
-                                 model=model[i]))
+                hang = crash_idx[i] in (-14, 142)
+                real.append(dict(meta=meta, kind="hang" if hang else "crash", op=line,
+                                 detail=("no answer within the per-op time limit (SIGALRM)" if hang
+                                         else "executor died with status %s" % crash_idx[i]), model=model[i]))
             continue
         a = vlib.parse_answer(impl[i])
         if a["head"] == "crash":
